@@ -70,19 +70,19 @@ Definition g_d : graph := graph_of [0;0;0;0] [[];[0];[0];[1;2]] [true;true;true;
 Definition ev_d : list ev :=
   [EvStart 0; EvEnd 0 (RBuilt Built); EvStart 1; EvStart 2; EvEnd 2 RFailed; EvEnd 1 (RBuilt Built); EvEnd 3 RDepFailed].
 Definition s_d : state :=
-  match witness g_d [] ev_d with
+  match witness g_d [] ev_d [] 0 with
   | Some ls => match run g_d (init g_d) ls with Some s => s | None => init g_d end
   | None => init g_d
   end.
 Example C04_nonvacuous :
-  accepts g_d [] ev_d true = true /\ reachable g_d s_d /\
+  accepts g_d [] ev_d [] true = true /\ reachable g_d s_d /\
   (exists l1 l2, trace s_d = l1 ++ OStart 1 :: l2 /\ g_deps g_d 1 = [0]) /\
   tstarts 0 (trace s_d) = 1 /\ tends 3 (trace s_d) = 1 /\ exited s_d = true /\ defect_class s_d = None.
 Proof.
   split; [vm_compute; reflexivity|]. split.
-  - unfold s_d. destruct (witness g_d [] ev_d) as [ls|] eqn:W; [|vm_compute in W; discriminate].
+  - unfold s_d. destruct (witness g_d [] ev_d [] 0) as [ls|] eqn:W; [|vm_compute in W; discriminate].
     exists ls. destruct (run g_d (init g_d) ls) eqn:E; [reflexivity|]. exfalso. revert E. 
-    assert (Hw : witness g_d [] ev_d = Some ls) by exact W. vm_compute in Hw. inversion Hw. subst ls. vm_compute. discriminate.
+    assert (Hw : witness g_d [] ev_d [] 0 = Some ls) by exact W. vm_compute in Hw. inversion Hw. subst ls. vm_compute. discriminate.
   - split; [|vm_compute; repeat split; reflexivity].
     exists [OEnd 3 RDepFailed; OEnd 1 (RBuilt Built); OEnd 2 RFailed; OStart 2], [OEnd 0 (RBuilt Built); OStart 0].
     vm_compute. split; reflexivity.
